@@ -31,6 +31,7 @@ META = {
 }
 META["explanation"] += "  parsed/record: the record comes from text through the real GAF reader, with a solver-chosen subset of eight optional fields whose values contain ':', '%', blanks, '=' and ','."
 META["explanation"] += '  Every query records the reference of the aligner object it was handed to, so a reused aligner is judged by the slice it was built on.'
+META["explanation"] += '  realgraph/paths uses the segment names s1 / s1.2 / s12.'
 
 OPS = {0: "M", 1: "I", 2: "D", 8: "X"}
 
@@ -334,11 +335,14 @@ def build(params):
             length = c14.pick(ln, [1, 2, 3])
             if start + length > len(want):
                 return "SKIP"
-            rec = lambda: GA.Alignment("r1", 50, 0, length, "+", path, len(want), start, start + length, 1, 1, 60, True, "1=", tags={"cg:Z:": "1="})
+            c14.NAMESET[0] = 1
+            xpath = c14.ptext(walk)
+            rec = lambda: GA.Alignment("r1", 50, 0, length, "+", xpath, len(want), start, start + length, 1, 1, 60, True, "1=", tags={"cg:Z:": "1="})
             install(R, GA, [rec], make_aligner([(0, length)], calls), calls)
             R.GFA = G.GFA  # the real graph class, reading the model file
             e = stubs.env()
             c14.LINE_ORDER[0] = 2
+            c14.NAMESET[0] = 1  # segment names s1 / s1.2 / s12
             e.files["g.gfa"] = stubs.MFile("text", c14.gfa_lines("abc", LINKS), None)
             out = stubs.vp_open("o.gaf", "w")
             R.realign_gaf("in.gaf", "g.gfa", "r.fa", out, 1)
